@@ -3244,3 +3244,35 @@ ASSUMPTIONS += [
     "ast.Name / ast.Attribute / ast.Subscript; a ParseError raised by enter_Subscript counts as 'the reader "
     "rejects what the printer wrote', any other exception there is an analysis error.",
 ]
+
+EXPLANATION += (
+    "  R5.23 (rules/c05_order_guard.py; agreement of the two sides of the round trip on 'field order is "
+    "semantic'): the visitor of pytd_visitors.py whose VisitClass hands back a plain class with sorted constants "
+    "(found by evaluation, not by the spelling of the sort) is evaluated, with everything it calls "
+    "(_PreserveConstantsOrdering, IsNamedTuple), on classes with unsorted constants whose base list holds the "
+    "namedtuple marker the producers write (pytd.NamedType('typing.NamedTuple') in output.py / "
+    "codegen/namedtuple.py) as NamedType (the AST the stub reader builds, canonical_pyi after "
+    "ClassTypeToNamedType) and as ClassType (the inferred AST after LookupClasses), at every position of base "
+    "lists of length 1-3 whose other bases are a resolved class, an unresolved name or Generic[T] in both "
+    "forms; the constants must come back in declaration order, else the layout printed and the layout "
+    "re-read differ.  One instance per (marker, node class).  R5.24 (rules/c05_param_kinds.py; printer <-> "
+    "reader agreement on parameter kinds): PrintVisitor.VisitSignature is evaluated for every well-formed "
+    "sequence of kinds with up to 4 named parameters (positional-only, regular, keyword-only) x *args x "
+    "**kwargs x one-line / multi-line layout; the text is parsed with the host's python grammar and the fields "
+    "of ast.arguments are mapped back to kinds with the table read from pyi/function.py (which comprehension "
+    "over which field gets which ParameterKind); names, kinds and star parameters must be the printed ones.  "
+    "One instance per what follows the positional-only run (nothing, a regular parameter, *args, a bare *, "
+    "**kwargs) plus 'no positional-only parameters'.  Blind spots of both: only the small scope is decided "
+    "(3 bases, 4 parameters); defaults, annotations and the parameter texts themselves are taken as printed; "
+    "LateType bases and the functional marker 'collections.namedtuple' (no producer writes it as a base) are "
+    "not exercised; anything outside the evaluated fragment is an analysis error.")
+ASSUMPTIONS += [
+    "R5.23: sorting is modelled on field names (strings) instead of pytd.Constant records; a base is a record "
+    "with the fields of its node class, `name` included for GenericType (base_type.name); the visitor is "
+    "applied to the inferred AST before printing and by canonical_pyi after re-reading (io._output_ast, "
+    "serialize_ast, parser.canonical_pyi - not re-derived here).",
+    "R5.24: the stub reader parses signatures with python's own grammar (ast.parse) and takes parameter kinds "
+    "from ast.arguments.posonlyargs / args / kwonlyargs / vararg / kwarg (table read from pyi/function.py, "
+    "concatenation order posonly + regular + kwonly assumed); _FormatContainerContents yields the star "
+    "parameter's text (modelled as its name).",
+]
